@@ -438,11 +438,18 @@ impl Model {
                         if pre.l > 0 && !ge_prod(post.n, pre.l, pre.n, post.l) {
                             v.push(Viol { prop: "C04", what: format!("stake lowered the redemption rate: {}/{} -> {}/{}", pre.n, pre.l, post.n, post.l) });
                         }
-                        // immediate round trip never profitable
+                        // immediate round trip never profitable: what the staker can unstake at once is the LST
+                        // the contract handed out in this transaction (never less than what was minted)
+                        let handed: u128 = res.events.iter().map(|e| match e {
+                            Ev::BankSend { from, denom, amount, .. } if from == q && denom == t => *amount,
+                            Ev::IbcSend { sender, denom, amount, .. } if sender == q && denom == t => *amount,
+                            _ => 0,
+                        }).sum();
+                        let in_hand = handed.max(total_minted);
                         if post.l > 0 {
-                            if let Some(back) = prim::mul_div_floor(post.n, total_minted, post.l) {
+                            if let Some(back) = prim::mul_div_floor(post.n, in_hand, post.l) {
                                 if back > paid_s {
-                                    v.push(Viol { prop: "C04", what: format!("round trip profit: paid {paid_s}, minted {total_minted}, redeemable {back}") });
+                                    v.push(Viol { prop: "C04", what: format!("round trip profit: paid {paid_s}, minted {total_minted}, handed out {handed}, redeemable {back}") });
                                 }
                             }
                         }
@@ -732,7 +739,7 @@ impl Model {
                             if post.n != pre.n + net {
                                 v.push(Viol { prop: "C11", what: format!("reward {paid_s} at rate {rate}: staked total {} -> {}, wanted +{net}", pre.n, post.n) });
                             }
-                            if post.rewards != pre.rewards + paid_s {
+                            if Some(post.rewards) != pre.rewards.checked_add(paid_s) {
                                 v.push(Viol { prop: "C11", what: format!("reward counter {} -> {}, wanted +{paid_s}", pre.rewards, post.rewards) });
                             }
                             if sends_s != net {
@@ -760,7 +767,10 @@ impl Model {
                 }
                 // the other direction: a reward from the rightful collector is processed whenever LST exists
                 // (contract running, fee not above the reward, no injected host fault)
-                if !res.ok && rightful && !pre.stopped && pre.l > 0 && paid_s > 0 && matches!(fee, Some(f) if f <= paid_s) && pre_w.fault_submit.is_none() && pre_w.fault_nodata.is_none() && !res.err.contains("sim:") {
+                if !res.ok && rightful && !pre.stopped && pre.l > 0 && paid_s > 0 && matches!(fee, Some(f) if f <= paid_s) && pre_w.fault_submit.is_none() && pre_w.fault_nodata.is_none() && !res.err.contains("sim:")
+                    // counters that cannot hold the result: refusing is the only faithful answer
+                    && pre.rewards.checked_add(paid_s).is_some() && pre.n.checked_add(paid_s).is_some() && pre.fees.checked_add(paid_s).is_some()
+                {
                     v.push(Viol { prop: "C11", what: format!("reward of {paid_s} from the reward collector refused although LST exists ({} LST, {} queued in the pending batch): {}", pre.l, pre.pending.total, res.err) });
                 }
                 self.seen("C11", format!("reward|{}|{}|{}|{}|{}|{}", rate.min(100_001), pre.treasury().is_some(), res.ok, pre.l == 0, mag(paid_s), fee.map(|f| (f == 0) as u8).unwrap_or(2)));
